@@ -1,4 +1,4 @@
-import IgrisModel.C19.Model2
+import IgrisModel.C19.Ptr
 open Igris.Proto Igris.C19
 
 def fmtToks (v : List Str) : String :=
@@ -7,6 +7,13 @@ def fmtToks (v : List Str) : String :=
 def fmtToksO : Option (List Str) → String
   | some v => fmtToks v
   | none => "fault"
+
+/-- results of the pointer-level models (Ptr.lean): an access outside the
+extent prints `fault`, a loop that did not end `fuel` -/
+def fmtPR {α : Type} (f : α → String) : PR α → String
+  | .ok a => f a
+  | .oob _ => "fault"
+  | .fuel => "fuel"
 
 def parseNames (w : String) : Option (List Str) :=
   if w = "-" then some [] else (w.splitOn ",").mapM parseBytes?
@@ -38,9 +45,10 @@ def parseDropTable (w : String) : Option (List Str × Nat) :=
   | _ => none
 
 def fmtCreader (mem : Str) : String :=
-  match creaderAll mem (mem.length + 2) 0 with
-  | none => "fault"
-  | some (l, ended) =>
+  match creaderAllP mem (mem.length + 2) 0 with
+  | .oob _ => "fault"
+  | .fuel => "fuel"
+  | .ok (l, ended) =>
     String.join (l.map fun (t, len, c) => toString t ++ ":" ++ toString len ++ ":" ++ toString c ++ " ")
       ++ (if ended then "end" else "LOOP")
 
@@ -149,55 +157,64 @@ def stepLine (_ : Unit) (line : String) : Unit × String :=
     | ["splitc", b, d] => do
         let b ← parseBytes? b
         let d ← parseBytes? d
-        pure (fmtToksO (splitChar b (d.headD NUL)))
+        pure (fmtPR fmtToks (splitCharP b (d.headD NUL)))
     | ["splitd", b, d] => do
         let b ← parseBytes? b
         let d ← parseBytes? d
-        pure (fmtToksO (splitDelims b d))
+        pure (fmtPR fmtToks (splitDelimsP b d))
     | "join" :: d :: toks => do
         let d ← parseBytes? d
         let toks ← toks.mapM parseBytes?
-        pure (bytesHex (join toks (d.headD NUL)))
+        pure (fmtPR bytesHex (joinP toks (d.headD NUL)))
     | "joinf" :: d :: pre :: post :: toks => do
         let d ← parseBytes? d
         let pre ← parseBytes? pre
         let post ← parseBytes? post
         let toks ← toks.mapM parseBytes?
-        pure (bytesHex (joinFmt toks d pre post))
+        pure (fmtPR bytesHex (joinFmtP toks d pre post))
     | ["trim", b] => do
         let b ← parseBytes? b
-        pure (bytesHex (trim b))
+        pure (fmtPR bytesHex (trimP b))
     | ["replace", s, a, b] => do
         let s ← parseBytes? s
         let a ← parseBytes? a
         let b ← parseBytes? b
-        pure (match replace s a b with | some r => bytesHex r | none => "fault")
+        pure (fmtPR bytesHex (replaceP s a b))
     | ["rsub", m, s, a, b] => do
         let m ← m.toNat?
         let s ← parseBytes? s
         let a ← parseBytes? a
         let b ← parseBytes? b
-        pure (match replaceSubstrings m s a b with
-              | some w =>
+        pure (fmtPR (fun w =>
                 -- a write at an offset ≥ maxsize is outside the buffer
                 if w.length > m then "fault"
-                else bytesHex (w ++ List.replicate (m - w.length) 0xa5#8)
-              | none => "fault")
+                else bytesHex (w ++ List.replicate (m - w.length) 0xa5#8))
+              (replaceSubstringsP m s a b))
     | ["memmem", l, s] => do
         let l ← parseBytes? l
         let s ← parseBytes? s
-        pure (match memmem l s with | some o => toString o | none => "none")
+        pure (fmtPR (fun r => match r with | some o => toString o | none => "none") (memmemP l 0 l.length s s.length))
     | ["cmdargs", b] => do
         let b ← parseBytes? b
-        pure (fmtToksO (splitCmdargs b))
+        pure (fmtPR fmtToks (splitCmdargsP b))
     | ["argvn", b, m] => do
         let b ← parseBytes? b
         let m ← m.toNat?
-        pure (fmtArgv (argvSplitN b m))
+        pure (fmtPR (fun r => fmtArgv (some r)) (argvSplitNP b m))
+    | ["argvnz", b, m] => do
+        let b ← parseBytes? b
+        let m ← m.toNat?
+        pure (fmtPR (fun r => fmtArgv (some r)) (argvSplitNP b m))
+    | ["premc", a, b] => do
+        let a ← parseBytes? a
+        let b ← parseBytes? b
+        pure (match pathRemovePrefix (a ++ [NUL]) (b ++ [NUL]) with
+              | none => "fault"
+              | some p => toString (a.length + 1 - p.length))
     | ["argv", b, m] => do
         let b ← parseBytes? b
         let m ← m.toNat?
-        pure (fmtArgv (argvSplit (b ++ [NUL]) m))
+        pure (fmtPR (fun r => fmtArgv (some r)) (argvSplitP (b ++ [NUL]) m))
     | ["msh", t] => do
         let t ← parseBytes? t
         pure (fmtDispatch (mshellExecute (t ++ [NUL]) []))
@@ -224,16 +241,14 @@ def stepLine (_ : Unit) (line : String) : Unit × String :=
         pure (fmtDispatch (rshellTablesExecute (t ++ [NUL]) tbls))
     | ["pnext", t] => do
         let t ← parseBytes? t
-        pure (match pathNext (t ++ [NUL]) with
-              | none => "fault"
-              | some none => "null"
-              | some (some (o, l)) => toString o ++ " " ++ toString l)
+        pure (fmtPR (fun r => match r with
+              | none => "null"
+              | some (o, l) => toString o ++ " " ++ toString l) (pathNextP (t ++ [NUL]) 0))
     | ["piter", t] => do
         let t ← parseBytes? t
-        pure (match pathIterate (t ++ [NUL]) with
-              | none => "fault"
-              | some none => "null"
-              | some (some p) => toString (t.length + 1 - p.length))
+        pure (fmtPR (fun r => match r with
+              | none => "null"
+              | some q => toString q) (pathIterateP (t ++ [NUL]) 0))
     | ["pcmp", a, b] => do
         let a ← parseBytes? a
         let b ← parseBytes? b
